@@ -1,5 +1,20 @@
 """Human-written level texts for MANIFEST.json."""
 META = {
+    "C10": dict(
+        text="Proof: for every history (any order/repetition of end-of-partition signals) the Lean model of the receiver delivers nothing until the number of "
+             "DISTINCT partitions that signalled reaches the partition count (silent_until_caught_up, released_only_when_all, eofs_nodup), holds until then "
+             "exactly the most recent decodable record per record key (catching_up), releases exactly the non-ack entries (release), afterwards delivers "
+             "each non-ack record once and nothing else (after_release); replay start offset law (start_offset). Tied to the Go receiver fed by the real sender.",
+        note="Trusted: Lean kernel, model transcription, JSON/base64 codec (exercised, not proved), scripted Kafka client. Found and repaired: F2 (signals were counted, not partitions).",
+    ),
+    "C12": dict(
+        text="Proof: record keys are injective on (type,key) for types without '-' (ukey_inj, record_key_iff), collide otherwise (collision_with_dash); a send/ack "
+             "is one record with unchanged fields keyed by the record key (produce_faithful, send_ack_same_key); deleting a record shadowed by a later record "
+             "with the same key never changes what a catching-up receiver holds (compaction_safe). The byte-level codec is checked differentially: every record "
+             "produced by the real sender is decoded and compared field by field, then fed to the real receiver and judged by C10's Spec.",
+        note="Trusted: as C10. The JSON/base64 codec is modelled as an abstract faithful codec; its fidelity is established only by the differential check "
+             "(UTF-8 incl. escapes, quotes, <>&, 4-byte runes, empty and binary payloads).",
+    ),
     "C07": dict(
         text="Proof: in the Lean model of recoverSingleEvent/processError a delivered record is emitted exactly when it lies in [from,to) of the partition's "
              "active window, once, flagged, for one limiter token (recover_emits, recover_tokens); main-consumer events are never flagged (flags); the first "
